@@ -29,13 +29,127 @@ pub fn test_history(ops: &[Op], cfg: &CrashCfg, local: &mut Local) -> Check {
     r
 }
 
+/// Crash chains: a random walk in which many calls of one history are cut short by a crash at a
+/// generated point of their storage operations (biased towards "right after the call's first
+/// write" and "right before its last operation", i.e. between header write and truncation), the
+/// store is recovered, the before/after state is identified, and the history continues on the
+/// recovered core. This reaches states that need three or more crashes in particular windows.
+#[derive(Clone, Debug, PartialEq, Eq, Hash, serde::Serialize, serde::Deserialize)]
+pub struct ChainStep {
+    pub op: Op,
+    /// None: the call completes. Some(x): crash inside the call at a point chosen by x.
+    pub crash: Option<u16>,
+}
+
+pub fn chain_strategy() -> impl Strategy<Value = Vec<ChainStep>> {
+    let blk = prop_oneof![3 => Just(crate::model::Blk { len: 1, fill: 7 }), 2 => Just(crate::model::Blk { len: 0, fill: 0 }), 2 => small_blk_strategy()];
+    let op = prop_oneof![
+        8 => blk.prop_map(Op::Append),
+        2 => prop::collection::vec(small_blk_strategy(), 0..4).prop_map(Op::Batch),
+        3 => clear_strategy(),
+        2 => Just(Op::Reopen),
+    ];
+    let step = (op, prop::option::weighted(0.45, any::<u16>())).prop_map(|(op, crash)| ChainStep { op, crash });
+    prop::collection::vec(step, 4..40)
+}
+
+pub fn run_chain(steps: &[ChainStep], local: &mut Local) -> Check {
+    use crate::backend::{apply, Disk};
+    use crate::model::sel;
+    let disk = Disk::journaled();
+    let mut sim = WSim::create(&disk, ObsPolicy::Full)?;
+    let mut crashes = 0u32;
+    let mut before_truncate = 0u32;
+    for (k, st) in steps.iter().enumerate() {
+        let Some(x) = st.crash else {
+            sim.apply(&st.op).map_err(|f| Failure::new(format!("chain:{}", f.kind), format!("after {crashes} crash(es), step {k}: {}", f.detail)))?;
+            continue;
+        };
+        if !st.op.is_mutating() {
+            sim.apply(&st.op).map_err(|f| Failure::new(format!("chain:{}", f.kind), format!("after {crashes} crash(es), step {k}: {}", f.detail)))?;
+            continue;
+        }
+        let before_files = disk.snapshot();
+        let before_model = sim.model.clone();
+        let b = disk.journal_len();
+        sim.apply(&st.op).map_err(|f| Failure::new(format!("chain:{}", f.kind), format!("after {crashes} crash(es), step {k}: {}", f.detail)))?;
+        let e = disk.journal_len();
+        if e == b {
+            continue;
+        }
+        let after_model = sim.model.clone();
+        // crash point: 1/3 right after the first operation, 1/3 right before the last one, 1/3 anywhere
+        let nops = e - b;
+        let cut = match x % 3 {
+            0 => b + 1.min(nops),
+            1 => e - 1,
+            _ => b + sel(x, nops as u64 + 1) as usize,
+        };
+        let mut files = before_files;
+        {
+            let j = disk.0.journal.lock().unwrap();
+            for jop in &j[b..cut] {
+                apply(&mut files, jop);
+            }
+            if cut < e && crate::crash::is_header_write(&j[cut - 1.min(cut - b)]) && cut > b {
+                before_truncate += 1;
+            }
+        }
+        sim.core = None;
+        disk.set_files(files);
+        crashes += 1;
+        let ctxt = format!("crash #{crashes} at step {k} ({:?}) after {} of {} storage operations", st.op, cut - b, nops);
+        let mut core = match crate::hc::open(&disk) {
+            Ok(Ok(c)) => c,
+            Ok(Err(err)) => return Err(Failure::new(format!("chain:recovery-open-error:{}", err_kind(&err)), format!("{ctxt}: reopen failed: {err}"))),
+            Err(p) => return Err(panic_failure(&format!("{ctxt}: reopening"), &p)),
+        };
+        let upto = before_model.len().max(after_model.len()) + 3;
+        let obs = crate::hc::observe(&mut core, upto, false).map_err(|p| panic_failure(&format!("{ctxt}: observing"), &p))?;
+        let cands: Vec<&crate::model::ListModel> = if cut == b { vec![&before_model] } else if cut == e { vec![&after_model] } else { vec![&before_model, &after_model] };
+        let mut matched = None;
+        let mut diffs = vec![];
+        for m in &cands {
+            match obs_vs_model(&obs, m, false) {
+                None => {
+                    matched = Some((*m).clone());
+                    break;
+                }
+                Some(d) => diffs.push(d),
+            }
+        }
+        let Some(m) = matched else {
+            return Err(Failure::new(
+                "chain:recovery-neither-before-nor-after",
+                format!("{ctxt}: recovered state matches none of the {} allowed states: {}", cands.len(), diffs.join(" | ")),
+            ));
+        };
+        sim.core = Some(core);
+        sim.model = m;
+    }
+    sim.observe_check(true, "chain-final").map_err(|f| Failure::new(format!("chain:{}", f.kind), format!("after {crashes} crash(es): {}", f.detail)))?;
+    sim.apply(&Op::Reopen).map_err(|f| Failure::new(format!("chain:{}", f.kind), format!("after {crashes} crash(es), final reopen: {}", f.detail)))?;
+    local.class("crash_chains");
+    local.class_n("crashes_in_chains", crashes as u64);
+    if crashes >= 3 {
+        local.class("chains_with_three_or_more_crashes");
+        local.nontrivial(&steps);
+    }
+    if before_truncate > 0 {
+        local.class("chains_with_crash_right_after_a_header_write");
+    }
+    Ok(())
+}
+
 pub fn run(ctx: &Ctx) {
     ctx.set_rule(
         "evaluations = recoveries (crash states rebuilt, reopened and checked); for each generated history EVERY prefix of its journal of mutating storage operations (write/del/truncate \
          on the four stores) after creation is rebuilt, reopened with open(true), observed (length, byte length, fork, writeable, \
          has/get of every index <= length+2) and must equal the model before or after the call in progress (exactly 'after all \
          returned calls' at call boundaries); then a fixed usability suffix (appends, clears, reopens) runs against the model, and \
-         for every 8th crash point every crash point inside that suffix is enumerated too. classes.recoveries counts recoveries. \
+         for every 8th crash point every crash point inside that suffix is enumerated too. classes.recoveries counts recoveries. A further stage runs crash chains: a random walk in which \
+         about 45% of the calls of a history are cut short by a crash (right after the call's first storage operation, right before \
+         its last one, or anywhere), the recovered state is matched against before/after and the history continues on it. \
          Non-trivial crash point = strictly inside a call that issues >= 2 mutating storage operations while >= 1 earlier call is \
          persisted only as an oplog entry; distinct = (journal length, prefix, call, unflushed count).",
     );
@@ -57,11 +171,18 @@ pub fn run(ctx: &Ctx) {
         test_history(ops, &cfg, local)
     });
     crate::props::repl_crash::run_replica_stage(ctx, &cfg, ctx.tier.pick(600, 12_000));
+    random_stage(ctx, "crash-chains", ctx.tier.pick(20_000, 500_000), chain_strategy, |steps: &Vec<ChainStep>, local| run_chain(steps, local));
 }
 
 pub fn replay(case: &Value) -> Check {
     if case.get("session").is_some() {
         return crate::props::repl_crash::replay(case, false);
+    }
+    if let Ok(steps) = serde_json::from_value::<Vec<ChainStep>>(case.clone()) {
+        if !steps.is_empty() {
+            let mut l = Local::default();
+            return run_chain(&steps, &mut l);
+        }
     }
     let ops: Vec<Op> = serde_json::from_value(case.clone()).map_err(|e| Failure::new("bad-replay", e.to_string()))?;
     let cfg = CrashCfg { torn: false, torn_only: false, recurse_every: Some(8), suffix: true, check_contig: false, seed: 1 };
